@@ -31,3 +31,6 @@ def run(check: Check, repo: Repo, tier: str) -> None:
     X.twin_handlers(check, repo, [repo.mod("execution.execute")])
     check.floors = {k: v for k, v in check.floors.items() if k != "TWIN-HANDLERS"}
     check.floor("TWIN-HANDLERS", 1, "twins in execute.py")
+    from rules import type_witness as TW
+    TW.type_witness(check, repo, repo.package_modules("execution") + repo.package_modules("pyutils"))
+    check.floor("TYPE-WITNESS", 30, "modules type-checked")
